@@ -28,6 +28,12 @@ CLAIMED = {
  "C18": ("Lean 4 proof (induction over the Go value/type model of cty/gocty; exact integer and float decode characterisations) + differential correspondence with the Go implementation over a family of 51 Go types described by reflect",
          "Machine-checked: decoding into any of the ten integer types succeeds iff the number is a whole number within the type's bounds and then stores exactly that number (bounds table proved); float decode characterised exactly incl. the float64 refusal threshold; any unmarked value into any target never panics; ToCtyValue at the implied type conforms to it; FromCtyValue(ToCtyValue(g, implied T)) = g by induction over all modelled shapes (primitives, slices, arrays, maps, pointers at any depth, tagged structs, big numbers, embedded cty.Value) under an explicit decidable side condition whose two excluded shapes are the recorded findings (each with a counterexample theorem).",
          "DESIGN.md §6 C18", "reflect itself is not verified: Go types reach the model through a descriptor the harness derives with reflect; capsules, sets of non-primitive members and duplicate struct tags are unmodelled (skipped and counted)"),
+ "C04": ("Lean 4 proof (unmark/recurse/re-mark prologue shape of every operation method, re-extracted from the source; induction over payloads; call-protocol marks for all callbacks) + differential correspondence with the Go implementation",
+         "Machine-checked for all values, marks and operands: every one of the 18 operation methods commutes with deep unmarking (same outcome class, same unmarked result), keeps every top-level operand mark (and every nested mark where the code promises it: Equals, HasElement needle), and invents none; SetVal hoists member marks; Mark/Unmark/WithMarks/WithSameMarks/UnmarkDeepWithPaths+MarkWithPaths round trips; the conversion wrapper keeps and does not invent marks for every inner conversion; Function.Call puts every mark found anywhere in a non-AllowMarked argument on the result and, with no AllowMarked parameter, equals the call on unmarked arguments re-marked — for all callbacks. The marks prologue of each method is regenerated from cty/value_ops.go on every run and must equal the text the model assumes.",
+         "DESIGN.md §6 C04", "nested marks through convert and AllowMarked stdlib functions are searched (paired marked/unmarked runs of the real code), not proved"),
+ "C05": ("Lean 4 proof (refinement builder as a state machine, induction over call sequences; prefix theorems under an explicit law of the Unicode libraries that is probed every run) + differential correspondence with the Go implementation, small scopes enumerated",
+         "Machine-checked for all builder call sequences on all receivers: type preserved; Range() reports exactly what was recorded; refinement only narrows and is exactly 'previous AND new constraint' under an exact number comparison (the code compares numbers by decimal text: that gap is a recorded finding with counterexample theorems, as are exclusive infinite bounds); contradictions are rejected; collapse to known values (null, point range, fixed length); refining a known value is an assertion. SafeKnownPrefix returns a byte prefix of the NFC form that ends no later than the last normalisation boundary for ANY delimiter table, hence is continuation-safe given the stated stability law of x/text (a structure field, probed ~29k times per run); the delimiter table is regenerated from the source.",
+         "DESIGN.md §6 C05", "NFC and UAX#29 segmentation are the real libraries (oracle columns); ValueRange.Includes is diffed but has no theorem"),
 }
 NOT_YET = "machinery for this property is not built yet in this round (model slice, theorems and correspondence pending); see DESIGN.md §9 build order"
 
